@@ -79,6 +79,9 @@ func genRefCase(r *rng, id string) *ValCase {
 		if strings.HasPrefix(eid, "sub") {
 			refForms = append(refForms, "./"+eid, "zz/../"+eid)
 		}
+		if d := dotty(r, euri); d != "" {
+			refForms = append(refForms, d, d) // an absolute reference that is not in normal form
+		}
 		targets = append(targets,
 			refTarget{mr, append(refForms, "#/$defs/"+name)},
 			refTarget{mi, []string{eid + "#/$defs/inner", "#/$defs/" + name + "/$defs/inner"}},
@@ -156,8 +159,12 @@ func genRefCase(r *rng, id string) *ValCase {
 		} else {
 			c.Universe = append(c.Universe, UniDoc{ruri, rdoc})
 		}
+		remForms := []string{rel, ruri}
+		if d := dotty(r, ruri); d != "" {
+			remForms = append(remForms, d)
+		}
 		targets = append(targets,
-			refTarget{mr, []string{rel, ruri}},
+			refTarget{mr, remForms},
 			refTarget{mi, []string{rel + "#/$defs/inner"}},
 			refTarget{ma, []string{rel + "#ra", ruri + "#ra"}})
 		if canon != "" && r.chance(1, 4) {
@@ -405,4 +412,17 @@ func genDynCase(r *rng, id string) *ValCase {
 func init() {
 	families["ref"] = func(r *rng, id string) Case { return genRefCase(r, id) }
 	families["dyn"] = func(r *rng, id string) Case { return genDynCase(r, id) }
+}
+
+// dotty: the same absolute hierarchical URI with dot segments in its path ("" when there is no path to put them in)
+func dotty(r *rng, uri string) string {
+	i := strings.Index(uri, "://")
+	if i < 0 {
+		return ""
+	}
+	j := strings.LastIndex(uri, "/")
+	if j < i+3 {
+		return ""
+	}
+	return uri[:j+1] + pick(r, []string{"zz/../", "./", "a/b/../../", "./zz/../"}) + uri[j+1:]
 }
